@@ -378,7 +378,7 @@ func init() {
 		}
 		mac := &vf.Family{
 			Name:   "macros-from-templates",
-			Bounds: "(defmacro mac (fn [p & r] `CT)) for every code template CT of weight <=4 (quick) / <=5 (thorough) over 11 forms and 7 element leaves, applied to every operand tuple of length 1-2 (quick) / 1-3 (thorough) over 7 operands (incl. the macro's own name); the expander logs an effect; same body as an ordinary function",
+			Bounds: "(defmacro mac (fn [p & r] `CT)) for every code template CT of weight <=4 (quick) / <=5 (thorough) over 11 forms and 7 element leaves, applied to every operand tuple of length 1-2 (quick) / 1-3 (thorough) over 7 operands (incl. the macro's own name); the expander logs an effect; same body as an ordinary function; the same macro also defined under the names try and fn (special-form heads)",
 			Setup:  setup,
 			N:      func(t string) int64 { tier = t; return cgOf().Count(0, cW()) * int64(len(argsOf())) },
 			Describe: func(i int64) string { d, c, _, _ := macProg(i); return form("do", d, c).Lisp() },
@@ -387,6 +387,19 @@ func init() {
 				rg.compareWithModel(form("do", d, c), nil, r, false)
 				rg.macroDiff(d, c, r)
 				rg.compareWithModel(form("do", fd, fc), nil, r, false)
+				// the same macro under the name of a special form (a macro call is recognised by what its
+				// head is bound to, before the special forms are looked at)
+				for _, name := range []string{"try", "fn"} {
+					ren := func(v V) V {
+						out := v
+						out.Elems = append([]V{}, v.Elems...)
+						return out
+					}
+					d2, c2 := ren(d), ren(c)
+					d2.Elems[1] = sym(name)
+					c2.Elems[0] = sym(name)
+					rg.compareWithModel(form("do", d2, c2), nil, r, false)
+				}
 			},
 		}
 		// one macro call form evaluated twice (the body of a function called twice): every evaluation
